@@ -55,6 +55,18 @@ func c03Policy(cs *core.Case) []spec.Op {
 	}
 	// how URL checking gets switched on
 	sw := func(n string, b bool) spec.Op { return spec.Op{K: spec.KSwitch, Names: []string{n}, B: b} }
+	// the first policies of the stream: ONE option that is documented to imply URL checking and
+	// nothing else (empty scheme allowlist, relative URLs off): every absolute or relative URL must go
+	implying := []spec.Op{sw(spec.SwNoFollow, true), sw(spec.SwNoFollow, false), sw(spec.SwNoFollowFQ, true), sw(spec.SwNoFollowFQ, false), sw(spec.SwNoReferrer, true), sw(spec.SwNoReferrer, false),
+		sw(spec.SwNoReferrerFQ, true), sw(spec.SwNoReferrerFQ, false), sw(spec.SwTargetBlank, true), sw(spec.SwTargetBlank, false), sw(spec.SwRelative, false), sw(spec.SwRelative, true),
+		{K: spec.KSchemes, Names: []string{"https"}}, {K: spec.KSchemeCustom, Names: []string{"https"}, Check: "host-example"}, {K: spec.KDataURIImages}, {K: spec.KStdURLs}, {K: spec.KImages}, sw(spec.SwParseable, true)}
+	if cs.Index < 2*len(implying) {
+		ops = append(ops, implying[cs.Index%len(implying)])
+		if cs.Index >= len(implying) {
+			ops = append(ops, spec.Op{K: spec.KRewrite, Check: "proxy"})
+		}
+		return ops
+	}
 	switch r.Intn(10) {
 	case 0:
 		ops = append(ops, sw(spec.SwParseable, true))
